@@ -365,10 +365,18 @@ def write_pad_codewords(buff, version, capacity, length):
     # character position in Micro QR Code versions M1 and M3 symbols shall be
     # represented as 0000.
     write = buff.extend
+    pad_codewords = ((1, 1, 1, 0, 1, 1, 0, 0), (0, 0, 0, 1, 0, 0, 0, 1))
     if version in (consts.VERSION_M1, consts.VERSION_M3):
-        write([0] * (capacity - length))
+        # The last data codeword has 4 bits, all others 8 bits
+        full_codewords_end = capacity - 4
+        if length <= full_codewords_end:
+            # Padding bits up to the codeword boundary
+            write([0] * (-length % 8))
+            for i in range((full_codewords_end - len(buff)) // 8):
+                write(pad_codewords[i % 2])
+        # (Rest of) the final 4 bit codeword
+        write([0] * (capacity - len(buff)))
     else:
-        pad_codewords = ((1, 1, 1, 0, 1, 1, 0, 0), (0, 0, 0, 1, 0, 0, 0, 1))
         for i in range(capacity // 8 - length // 8):
             write(pad_codewords[i % 2])
 
